@@ -3,6 +3,10 @@
 import json, os
 root = os.path.dirname(os.path.dirname(os.path.abspath(__file__)))
 CHECKS = [
+ dict(id="C13", level="exploration", engine="gen (scope model + bytecode scan + call recorders)", design="§5 C13",
+      technique="bounded exhaustive enumeration of scripts x disabled sets x configurations; oracle = generator's scope model, scan of all GETBUILTIN operands and call recorders wrapped around the builtin objects",
+      text="For each N in {int, len, append, printf} and every subset of that alphabet containing N (quick: the singleton): N undeclared or bound by each of the 24 binding forms of C01-G1 (3 of which hide the binding) x 17 use sites x use expressions with and without a literal const in scope; a source module referencing N imported from 8 kinds of site; Eval sessions of <= 3 steps mixing fragments that use N, declare N, and the embedder's DisableBuiltin call. Optimizer on, off and at budget 1. An undeclared reference must be a compile error; Bytecode must contain no GETBUILTIN of a disabled builtin; neither compiling (optimizer's private VM) nor running may call one.",
+      note="Trusted: the scope classification of the binding forms (shared with C01-G1)."),
  dict(id="C12", level="model_checking", engine="gen+ref", design="§5 C12",
       technique="bounded exhaustive enumeration of import graphs x import sites against the executable reference model; every model trace is replayed on the implementation under 8 configurations",
       text="Every directed graph on 2 (thorough 3) source modules incl. self-imports and all cycles, with main importing two modules through every pair of 9 import sites (top level, function called 0/1/2 times, loop, false/true condition, Go callback on a child VM pooled and unpooled, closure returned by another module). The reference interpreter gives body log, shared state and value; the VM must agree with optimizer on/off, plain and after encode/decode; every cyclic graph and unknown module must be a compile error; builtin-module values (10 kinds of mutation) must be invisible to a second VM, to the host and to a later compile.",
